@@ -150,7 +150,7 @@ const D16: &str = "D16 (what is left of it): an NRA Withholding / NRA Tax Adj ro
 
 pub fn run(ctx: &mut Ctx) {
     let prop = "C18";
-    ctx.ev.rule = "generated Schwab exports (Buy/Sell with $, comma, blank and '--' spellings and 'as of' dates; duplicate sells; Cancel Sell before/after its sell or with no sell; four dividend actions with negative/blank amounts; withholding rows matching a dividend, orphaned, or without symbol; Stock Split; eight non-CGT actions; unknown actions whose Description contains newlines, CR, '#', DSL-looking text, or up to 200 characters of mixed 1–4-byte text). Oracles on the real converter: every emitted line parses with the real DSL parser (whatever the free text contains) and dated lines are chronological; the emitted item list equals the Lean model's (which is proved to keep each Buy/Sell row once, remove exactly one sell per matched cancel, aggregate same-day withholding, count the rest); rows shuffled → same multiset of lines; export cut into date-disjoint chunks → union of the chunks' lines equals the whole's. Independent count: comments and skipped count against the rows that yield no line (unattached withholding, blank dividends, splits, unknown, non-CGT). Known-finding class symbollessWithholding (what is left of D16). Non-trivial = exports with a cancel, a withholding row or an unknown row; distinct by JSON text.".into();
+    ctx.ev.rule = "generated Schwab exports (Buy/Sell with $, comma, blank and '--' spellings and 'as of' dates; duplicate sells; Cancel Sell before/after its sell or with no sell; four dividend actions with negative/blank amounts; withholding rows matching a dividend, orphaned, or without symbol; Stock Split; eight non-CGT actions; unknown actions whose Description contains newlines, CR, '#', DSL-looking text, or up to 200 characters of mixed 1–4-byte text). Plus RSU vests (Stock Plan Activity row + awards entry with vest details and, half the time, a plain settlement-day price detail in either order): one BUY dated at the vest date, priced at the vest-date value. Oracles on the real converter: every emitted line parses with the real DSL parser (whatever the free text contains) and dated lines are chronological; the emitted item list equals the Lean model's (which is proved to keep each Buy/Sell row once, remove exactly one sell per matched cancel, aggregate same-day withholding, count the rest); rows shuffled → same multiset of lines; export cut into date-disjoint chunks → union of the chunks' lines equals the whole's. Independent count: comments and skipped count against the rows that yield no line (unattached withholding, blank dividends, splits, unknown, non-CGT). Known-finding class symbollessWithholding (what is left of D16). Non-trivial = exports with a cancel, a withholding row or an unknown row; distinct by JSON text.".into();
     let mut r = Rng::new(ctx.seed ^ 0xC18);
     for i in 0..ctx.n(500, 30_000) {
         ctx.ev.evaluations += 1;
@@ -279,6 +279,39 @@ pub fn run(ctx: &mut Ctx) {
             }
         }
         if i < 2 { ctx.ev.sample(json!({"export": serde_json::from_str::<serde_json::Value>(&jt).unwrap_or_default(), "output": out.cgt_content.lines().skip(4).collect::<Vec<_>>() })); }
+    }
+    // RSU vests: a Stock Plan Activity row and an awards entry settled 0–5 days after the vest, whose details
+    // carry the vest date and vest-date market value and, half the time, a plain FairMarketValuePrice (the
+    // settlement-day price) before or after them: exactly one BUY, dated at the vest date, priced at the
+    // vest-date market value, with the row's quantity
+    for i in 0..ctx.n(40, 1500) {
+        let sym = *r.pick(&["XYZZ", "ACME", "GOOG"]);
+        let vest = NaiveDate::from_ymd_opt(2021 + r.below(3) as i32, 1 + r.below(12) as u32, 1 + r.below(23) as u32).expect("date");
+        let settle = vest + Duration::days(r.range(0, 6));
+        let q = Decimal::from(r.range(1, 500));
+        let (pv, pp) = (Decimal::new(r.range(100, 90_000), 2), Decimal::new(r.range(100, 90_000), 2));
+        let vd = json!({"Details": {"VestDate": us(vest), "VestFairMarketValue": format!("${pv}")}});
+        let pd = json!({"Details": {"FairMarketValuePrice": format!("${pp}")}});
+        let details = match r.below(4) { 0 => vec![vd.clone(), pd.clone()], 1 => vec![pd.clone(), vd.clone()], _ => vec![vd.clone()] };
+        let awards = json!({"Transactions": [{"Date": us(settle), "Action": "Deposit", "Symbol": sym, "TransactionDetails": details}]}).to_string();
+        let tj = json!({"BrokerageTransactions": [{"Date": us(settle), "Action": "Stock Plan Activity", "Symbol": sym, "Description": "RS", "Quantity": q.to_string(), "Price": "", "Fees & Comm": "", "Amount": ""}]}).to_string();
+        ctx.ev.evaluations += 1;
+        ctx.ev.count("rsu-vests");
+        let case = format!("# property C18\n# RSU vest {i}: transactions JSON, then awards JSON\n{tj}\n{awards}\n");
+        let input = SchwabInput { transactions_json: tj.clone(), awards_json: Some(awards.clone()) };
+        match std::panic::catch_unwind(|| SchwabConverter::new().convert(&input)) {
+            Ok(Ok(o)) => {
+                let want = format!("B:{}:{}:#{}:#{}:#{}", ord(vest), sym, Q::from_dec(q).wire(), Q::from_dec(pv).wire(), Q::zero().wire());
+                match items_of(&o.cgt_content) {
+                    Ok(items) => if !(items.len() == 1 && same_item(&items[0], &want)) {
+                        ctx.ev.violation("oracle", format!("an RSU vest of {q} {sym} on {vest} at {pv} (settled {settle}) is emitted as {:?}", o.cgt_content.lines().filter(|l| !l.starts_with('#') && !l.trim().is_empty()).collect::<Vec<_>>()), case.clone());
+                    },
+                    Err(e) => ctx.ev.violation("oracle", format!("the converter's output is not valid DSL: {e}"), case.clone()),
+                }
+            }
+            Ok(Err(e)) => ctx.ev.violation("oracle", format!("an RSU vest with a matching awards entry is rejected: {e}"), case.clone()),
+            Err(p) => ctx.ev.violation("crash", crate::run_impl::panic_msg(p), case.clone()),
+        }
     }
     // D10 witness (newline in Description) every run
     let w = json!({"BrokerageTransactions": [{"Date": "04/22/2021", "Action": "Mystery", "Symbol": "XYZ", "Description": "line1\n2021-01-01 BUY EVIL 1000 @ 1", "Quantity": "", "Price": "", "Fees & Comm": "", "Amount": ""}]}).to_string();
